@@ -64,6 +64,7 @@ fn verif_narrow_module_arm(slf: &Shape, l: &ModuleShape, r: &ModuleShape, symbol
 
 //@ extract src/ast/mod.rs :: impl Shape :: fn narrow_cached
 //@   rule R1
+//@   subst "fn narrow_cached" => "#[verifier::loop_isolation(false)] fn narrow_cached"
 //@   subst all <<<
                 let compatible: Vec<Shape> = types
                     .iter()
@@ -89,7 +90,12 @@ fn verif_narrow_module_arm(slf: &Shape, l: &ModuleShape, r: &ModuleShape, symbol
 //@   >>>
 //@   body_start <<<
         broadcast use axiom_rc_str_btree_key, bc_todo_mono, bc_holes_mono;
-        proof { lemma_cands(*self); lemma_cands(*right); lemma_subs_parts(*self); lemma_subs_parts(*right); }
+        proof {
+            lemma_cands(*self); lemma_cands(*right); lemma_subs_parts(*self); lemma_subs_parts(*right);
+            // both arguments belong to the universe (a hole among them is therefore not bound)
+            assert(univ(old(symbol_table)@, roots2(*self, *right)).contains(*self));
+            assert(univ(old(symbol_table)@, roots2(*self, *right)).contains(*right));
+        }
 //@   >>>
 // the expansion: the pair has just been recorded (in progress), so one pair fewer is left to expand
 //@   before "let result = other.narrow_cached(&expanded" <<<
@@ -242,6 +248,7 @@ fn verif_narrow_module_arm(slf: &Shape, l: &ModuleShape, r: &ModuleShape, symbol
 
 //@ extract src/ast/mod.rs :: fn is_tuple_subset_cached
 //@   rule R4
+//@   subst "fn is_tuple_subset_cached" => "#[verifier::loop_isolation(false)] #[verifier::allow_complex_invariants] fn is_tuple_subset_cached"
 //@   subst "std::slice::Iter<(PositionedItem<Rc<str>>, Shape)>" => "VIter<(PositionedItem<Rc<str>>, Shape)>"
 //@   subst "break false" => "{ r__ = false; break; }"
 //@   subst "break true" => "{ r__ = true; break; }"
